@@ -1,16 +1,22 @@
 #!/bin/bash
-# Re-check the Lean restatements of the lemma library against Mathlib (offline) and record the result in lemmas/lean_checked.json.
-# Not part of any check command (it needs ~10 s warm, minutes cold); the evidence of the ALG properties reports what this file records.
+# Re-check the Lean restatements of the lemma library (Lemmas.lean) and the theorem-level facts (Theorems.lean) against Mathlib (offline) and record the
+# result in lemmas/lean_checked.json.  Not part of any check command (it needs ~20 s warm, minutes cold); the evidence reports what this file records.
 cd /verif/lemmas || exit 2
-out=$(lean Lemmas.lean 2>&1); rc=$?
-nerr=$(echo "$out" | grep -c "error")
-python3 - "$rc" "$nerr" <<'PY'
+out1=$(lean Lemmas.lean 2>&1); rc1=$?
+out2=$(lean Theorems.lean 2>&1); rc2=$?
+nerr=$(echo "$out1$out2" | grep -c "error")
+nsorry=$(grep -c "sorry\|admit\|^axiom" Lemmas.lean Theorems.lean | awk -F: '{s+=$2} END {print s}')
+python3 - "$rc1" "$rc2" "$nerr" "$nsorry" <<'PY'
 import json, re, sys, subprocess, hashlib
-rc, nerr = int(sys.argv[1]), int(sys.argv[2])
+rc1, rc2, nerr, nsorry = map(int, sys.argv[1:5])
 src = open('/verif/lemmas/Lemmas.lean').read()
+src2 = open('/verif/lemmas/Theorems.lean').read()
 names = re.findall(r'^theorem (L_\w+)', src, flags=re.M)
+names2 = re.findall(r'^theorem (\w+)', src2, flags=re.M)
 ver = subprocess.run(['lean', '--version'], capture_output=True, text=True).stdout.strip()
-json.dump(dict(lean=ver, mathlib="/opt/veriftools/mathlib4 (v4.33.0)", exit_code=rc, errors=nerr, checked=(rc == 0 and nerr == 0),
-               source_sha256=hashlib.sha256(src.encode()).hexdigest(), theorems=names), open('/verif/lemmas/lean_checked.json', 'w'), indent=1)
-print(f"lean exit={rc} errors={nerr} theorems={len(names)}")
+ok = rc1 == 0 and rc2 == 0 and nerr == 0 and nsorry == 0
+json.dump(dict(lean=ver, mathlib="/opt/veriftools/mathlib4 (v4.33.0)", exit_code=max(rc1, rc2), errors=nerr, sorry_or_axiom=nsorry, checked=ok,
+               source_sha256=hashlib.sha256(src.encode()).hexdigest(), theorems=names,
+               theorems_sha256=hashlib.sha256(src2.encode()).hexdigest(), theorem_level=names2), open('/verif/lemmas/lean_checked.json', 'w'), indent=1)
+print(f"lean exit={rc1},{rc2} errors={nerr} sorry/axiom={nsorry} lemma restatements={len(names)} theorem-level={len(names2)}")
 PY
